@@ -7,13 +7,16 @@
      GzEngineInv     the decompressor on a shared, partly consumed buffer (erun_sound machinery)
      GzEngineSound   gzip reader vs Containers.gz_read
      GzEngineZl      zlib reader vs Containers.zl_read
-     GzEngineCorollaries   through ContainersProofs: gz_stream, truncation *)
+     GzEngineCorollaries   through ContainersProofs: gz_stream, truncation
+     GzEngineSound2 / GzEngineZl2   Reset of any Reader onto any buffer state, position at io.EOF
+                     (statements: RModel/GzEngineSpec2.v): no over-read, member-by-member walks *)
 From Coq Require Import List NArith ZArith Bool.
 From Verif Require Import Bits Huffman Inflate InflateSpec.
 From Verif Require Import Containers ContainersSpec.
-From Verif Require Import Base Engine EngineReset EngineRefineSpecBuf GzEngine GzEngineSpec.
+From Verif Require Import Base Engine EngineReset EngineRefineSpecBuf GzEngine GzEngineSpec
+     GzEngineSpec2.
 From Verif Require Import GzEngineShift GzEngineStrm GzEngineBuf GzEngineHdr GzEngineInv
-     GzEngineSound GzEngineZl GzEngineCorollaries.
+     GzEngineSound GzEngineZl GzEngineCorollaries GzEngineSound2 GzEngineZl2.
 Import ListNotations.
 Open Scope N_scope.
 
@@ -49,6 +52,28 @@ Proof.
            dRead_strm zl_sticky).
 Qed.
 
+(* Reset of any Reader, no over-read, member by member (GzEngineSpec2.v) *)
+Theorem gz_sound_gen : gz_sound_gen_statement.
+Proof.
+  exact (gz_sound_gen_from ioReadFull_spec crc32_update_app u32_add gzReadHeader_spec
+           newReader_on_inv dReset_inv gz_dRead_ok dRead_strm gz_sticky).
+Qed.
+
+Theorem gz_consumed : gz_consumed_statement.
+Proof. exact (gz_consumed_from gz_sound_gen). Qed.
+
+Theorem gz_walk : gz_walk_statement.
+Proof. exact (gz_walk_from gz_sound_gen). Qed.
+
+Theorem zl_sound_gen : zl_sound_gen_statement.
+Proof.
+  exact (zl_sound_gen_from ioReadFull_spec adler_update_app adler_sum_ok newReader_on_inv dReset_inv
+           gz_dRead_ok dRead_strm zl_sticky).
+Qed.
+
+Theorem zl_consumed : zl_consumed_statement.
+Proof. exact (zl_consumed_from zl_sound_gen). Qed.
+
 (* (c): gz_sticky, zl_sticky are in GzEngineBuf.v; the entry points of the extracted driver compute
    gzrun / zlrun: gzrun_obs_eq, zlrun_obs_eq (GzEngineBuf.v) *)
 
@@ -58,6 +83,11 @@ Print Assumptions gz_eof_checked_eng.
 Print Assumptions gz_truncated_eng.
 Print Assumptions gz_truncated_eng_single.
 Print Assumptions zl_sound.
+Print Assumptions gz_sound_gen.
+Print Assumptions gz_consumed.
+Print Assumptions gz_walk.
+Print Assumptions zl_sound_gen.
+Print Assumptions zl_consumed.
 Print Assumptions gz_sticky.
 Print Assumptions zl_sticky.
 Print Assumptions gzrun_obs_eq.
